@@ -104,6 +104,8 @@ type Machine struct {
 	paramInit  map[string]Value
 	pathVars   []*Term
 	gsnap      map[*ssa.Global]Value
+	payloads   []payloadRec
+	ufArgs     map[string][]*Term // UF predicates applied on this path (validbech32_acc, validdec, ...)
 }
 
 type NondetRec struct {
@@ -141,6 +143,18 @@ func (m *Machine) repoSite() string {
 
 func (m *Machine) goPanicf(kind string, format string, a ...interface{}) {
 	panic(&goPanic{kind: kind, val: m.in.Str(fmt.Sprintf(format, a...)), site: m.repoSite()})
+}
+
+func (m *Machine) noteUF(name string, arg *Term) {
+	if m.ufArgs == nil {
+		m.ufArgs = map[string][]*Term{}
+	}
+	for _, t := range m.ufArgs[name] {
+		if t == arg {
+			return
+		}
+	}
+	m.ufArgs[name] = append(m.ufArgs[name], arg)
 }
 
 // ---- fresh symbols
